@@ -62,11 +62,18 @@ class Geometry2d:
 
 def read_range_file(file, offset, length):
     file.seek(offset)
-    return file.read(length)
+    return check_range_length(file.read(length), offset, length)
 
 
 def read_range_blob(file, offset, length):
-    return file.download_blob(offset=offset, length=length).readall()
+    return check_range_length(file.download_blob(offset=offset, length=length).readall(), offset, length)
+
+
+def check_range_length(buffer, offset, length):
+    # A truncated file or an interrupted transfer must not be mistaken for data
+    if len(buffer) != length:
+        raise IOError(f"Requested {length} bytes at offset {offset}, but only got {len(buffer)}")
+    return buffer
 
 
 def generate_fake_seismic(n_ilines, n_xlines, n_samples, min_iline=0, min_xline=0):
